@@ -58,7 +58,9 @@ PROPS = {
         "profiles": ["dev"],
         "rule": ("every sequence over {ordinary, MESSAGE-INTEGRITY, MESSAGE-INTEGRITY-SHA256, FINGERPRINT} up to the "
                  "exhaustive length (quick 7 = 21,844 sequences, thorough 9 = 349,524 sequences, i.e. beyond the 87,380 of length <= 8) plus sampled longer ones; wire bytes built "
-                 "by the reference (unique SOFTWARE serial per ordinary attribute, MAC/CRC per RFC at that position); "
+                 "by the reference (unique SOFTWARE serial per ordinary attribute, MAC/CRC per RFC at that position); the "
+                 "same enumeration (quick length 6, thorough 8) again with unknown comprehension-optional (0xFFEE) and "
+                 "comprehension-required (0x7F77) types standing for 'ordinary' by position; "
                  "variants: all checksums right, every/each inadmissible one wrong, each admitted one wrong; decoded "
                  "under all 16 option combinations and the context-less decoder; oracle = the four-line admission rule "
                  "of the property (wire::admit). Non-trivial = sequence contains at least one of MI/SHA256/FP; distinct "
@@ -67,7 +69,7 @@ PROPS = {
                         "decided by the statement, only no-panic is checked",
                         "the agent's private iterator implementing the same rule is exercised through the client "
                         "simulations (C07/C08/C10), not here"],
-        "min_counters": {"sequences.enumerated": 21845, "variants.admitted-wrong": 1000, "variants.inadmissible-wrong": 1000},
+        "min_counters": {"sequences.enumerated": 21845, "sequences.enumerated-unknown-ordinary": 4000, "variants.admitted-wrong": 1000, "variants.inadmissible-wrong": 1000},
         "exhaustive_all": True,
     },
     "C14": {
@@ -136,7 +138,9 @@ PROPS = {
                  "derivation algorithm or the other mechanism; reference-appended SHA256/FINGERPRINT must not invalidate. "
                  "Non-trivial = every message (all carry integrity); distinct = hash of encoded bytes."),
         "assumptions": [STABLE + "; one third of the keys additionally use non-ASCII spaces and base+combining-mark "
-                        "pairs whose OpaqueString mapping (space -> U+0020, NFC) is tabulated in the generator",
+                        "pairs and canonical singletons (U+212B, U+2126, U+212A, U+F900, ...) whose OpaqueString mapping (space -> "
+                        "U+0020, NFC) is tabulated in the generator; short-term passwords include the HMAC block-size "
+                        "boundary (63/64/65/66, 127-129, 200 bytes)",
                         "a random 160/256-bit MAC collision is treated as impossible"],
         "min_counters": {"faults.rejected": 100000, "wrong-key.rejected": 1000, "untampered.accepted": 1000,
                          "appended.still-valid": 300, "vectors.accepted": 5},
@@ -352,3 +356,18 @@ PROPS = {
                          "c13.mech.none": 100, "c13.mech.short-term": 100, "c13.mech.long-term": 100},
     },
 }
+
+# Optimised builds behave differently where it matters for several properties (integer overflow
+# wraps instead of panicking, debug_assert! disappears, different float/inlining decisions), so the
+# thorough tier repeats every workload that quick runs only on the dev profile on a release build
+# of the same tree (same cases, half the volume); the arithmetic-heavy timer properties also do so
+# in the quick tier.
+for _k, _m in PROPS.items():
+    if "release" not in _m.get("profiles", []):
+        _m.setdefault("thorough_profiles", [])
+        if "release" not in _m["thorough_profiles"]:
+            _m["thorough_profiles"].insert(0, "release")
+        _m.setdefault("scale", {}).setdefault("release", 0.5)
+for _k in ("C06", "C12", "C15"):
+    PROPS[_k]["profiles"] = ["dev", "release"]
+    PROPS[_k]["thorough_profiles"] = [p for p in PROPS[_k]["thorough_profiles"] if p != "release"]
